@@ -334,6 +334,10 @@ class C14(object):
                         if rr.random() < 0.6:
                             sec.EquationBlock[v].Description = rr.choice(HOSTILE)
                 sec.AddVariable('XTRA', rr.choice(HOSTILE) if hostile else 'extra', '2.0')
+                # a WIDE right-hand side (> 80 characters once the full names are substituted) whose description
+                # carries the marker word
+                sec.AddVariable('WIDE', ('these EXOGENOUS looking words: exogenous variables follow (0) (k-1)' if hostile
+                                         else 'a wide row'), ' + '.join(['0.125*XTRA'] * 14))
             if hostile:
                 mod.CountryList[0].LongName = rr.choice(HOSTILE)
             with contextlib.redirect_stdout(io.StringIO()):
